@@ -15,10 +15,8 @@ VERIF = os.path.dirname(os.path.dirname(os.path.abspath(__file__)))
 REPO = os.path.abspath(os.environ.get("VERIF_REPO", "/repo"))
 OUT = os.path.abspath(os.environ.get("VERIF_OUT", VERIF))     # where evidence/ and replays/ are written
 
-try:
-    sys.set_int_max_str_digits(0)
-except AttributeError:
-    pass
+# CPython's default limit on int <-> str conversion (4300 digits) is left in force, as it is for any user of the
+# library: generators keep integers below ~3900 digits (json.loads could not deliver longer ones either)
 sys.setrecursionlimit(3000)
 
 
